@@ -274,7 +274,7 @@ var _ rpc.Resources
 //@   ensures[C07] old(s.state) == stateDisposed ==> invoked() == old(invoked())
 //@   safety[C15]
 //@   loop 1 invariant invoked() == old(invoked()) + rangeidx1 && len(cbs) == old(len(s.accessCallbacks))
-//@   loop 1 invariant[C04,C07] rangeidx1 == 0 ==> s.accessCallbacks == nil && s.flags & flagAccessCalled == 0 &&
+//@   loop 1 invariant[C04,C07,C19] rangeidx1 == 0 ==> s.accessCallbacks == nil && s.flags & flagAccessCalled == 0 &&
 //@       (access.Error == nil || access.Error.Code == "system.accessDenied" ==> s.access == access) &&
 //@       (!(access.Error == nil || access.Error.Code == "system.accessDenied") ==> s.access == old(s.access))
 //@ closure (*Subscription).loadAccess#5
@@ -1400,6 +1400,9 @@ var _ rpc.Resources
 //@   assert[C10] rpc.NewEvent#*: arg0 == s.rid && arg1 == event.Event
 //@   assert[C02] s.removeReference#1: wsframes == old(wsframes) && callcount("OnReady") == old(callcount("OnReady"))
 //@   assert[C02,C03] sub.OnReady#1: rangeidx4 == 0 ==> s.queueFlag & queueReasonLoading != 0 && wsframes == old(wsframes)
+// (values go out in the encoding of the protocol version the client negotiated)
+//@   assert[C01] rpc.NewEvent#1: s.c.(*wsConn).protocolVer < versionSoftResourceReferenceAndDataValue && typeis(arg2.(rpc.ChangeEvent).Values, rescache.Legacy120ValueMap)
+//@   assert[C01] rpc.NewEvent#2: s.c.(*wsConn).protocolVer >= versionSoftResourceReferenceAndDataValue && typeis(arg2.(rpc.ChangeEvent).Values, map[string]codec.Value)
 //@   assert[C02] sub.OnReady#1: rangeidx4 == 0 ==> (forall j int :: 0 <= j && j < len(subs) ==> subs[j] != nil && subs[j].c == s.c)
 //@   assert[C03] s.unsubscribeDirect#1: s.state == stateDeleted && arg0 == reserr.ErrDeleted && wsframes == old(wsframes) + ite(old(s.c.(*wsConn).ws) != nil, 1, 0)
 //@   safety[C15]
@@ -1408,6 +1411,7 @@ var _ rpc.Resources
 //@   loop 1 invariant s.c.(*wsConn).ws == old(s.c.(*wsConn).ws) && s.c.(*wsConn).disposing == old(s.c.(*wsConn).disposing)
 //@   loop 1 invariant forall j int :: 0 <= j && j < len(subs) ==> subs[j] != nil && subs[j].c == s.c
 //@   loop 1 invariant hasUnsent ==> len(subs) > 0
+//@   loop 1 invariant[C02] !hasUnsent ==> (forall j int :: 0 <= j && j < len(subs) ==> subs[j].state == stateSent)
 //@   loop 2 assume has(old, k) && old[k].Type == codec.ValueTypeReference ==> has(s.refs, old[k].RID) && s.refs[old[k].RID] != nil && s.refs[old[k].RID].sub != nil
 //@   loop 2 invariant wsframes == old(wsframes) && callcount("OnReady") == old(callcount("OnReady")) && (hasUnsent ==> len(subs) > 0)
 //@   loop 2 invariant s.c.(*wsConn).ws == old(s.c.(*wsConn).ws) && s.c.(*wsConn).disposing == old(s.c.(*wsConn).disposing)
@@ -1435,6 +1439,8 @@ var _ rpc.Resources
 //@   ensures[C03] old(s.state) != stateDisposed && old(count) <= 1 ==> callcount("unqueueEvents") == old(callcount("unqueueEvents")) + 1 &&
 //@       callcount("ReleaseRPCResources") == old(callcount("ReleaseRPCResources")) + len(subs)
 //@   assert[C10] rpc.NewEvent#*: arg0 == s.rid && arg1 == event.Event
+//@   assert[C01] rpc.NewEvent#3: s.c.(*wsConn).protocolVer < versionSoftResourceReferenceAndDataValue && typeis(arg2.(rpc.ChangeEvent).Values, rescache.Legacy120ValueMap)
+//@   assert[C01] rpc.NewEvent#4: s.c.(*wsConn).protocolVer >= versionSoftResourceReferenceAndDataValue && typeis(arg2.(rpc.ChangeEvent).Values, map[string]codec.Value)
 //@   assert[C02] s.c.Send#3: (forall j int :: 0 <= j && j < len(subs) ==> predCovered(subs[j], r)) && (forall x *Subscription :: x.c == s.c && x.state == stateToSend ==> predClosed(x, r))
 //@   assert[C02] s.c.Send#4: (forall j int :: 0 <= j && j < len(subs) ==> predCovered(subs[j], r)) && (forall x *Subscription :: x.c == s.c && x.state == stateToSend ==> predClosed(x, r))
 //@   assert[C03] sub.ReleaseRPCResources#1: rangeidx3 == 0 ==> wsframes == old(wsframes) + ite(old(s.c.(*wsConn).ws) != nil, 1, 0)
